@@ -11,7 +11,9 @@ import (
 	"os"
 	"path/filepath"
 	"strings"
+	"reflect"
 	"sync"
+	"sync/atomic"
 	"time"
 
 	dss "github.com/ahimsalabs/durable-streams-go/durablestream"
@@ -24,7 +26,7 @@ import (
 // Domain "store": the three bundled stores behind one op language (M3), and
 // EventBus.Replay over them (M4).
 
-var typePool = []string{"order.created", "", "ünïcode/тип/类型", "main.T07", strings.Repeat("long", 40), "a b\tc", "$", "x\"y\\z", "state.ChangeMessage"}
+var typePool = []string{"order.created", "", "ünïcode/тип/类型", "main.T07", strings.Repeat("long", 40), "a b\tc", "$", "x\"y\\z", "state.ChangeMessage", "0042", "1.10", "1e3", "-0"}
 
 var tsPool = []time.Time{
 	time.Date(2024, 2, 29, 12, 30, 45, 123456789, time.UTC),
@@ -119,6 +121,8 @@ func identify(e *eb.StoredEvent, padded bool) string {
 type storeInst struct {
 	bus     *eb.EventBus // lazily: a bus persisting into st (op "pub")
 	pubSeen string
+	perrs   int          // calls of the bus's persistence error handler
+	flaky   *atomic.Bool // durable-streams: the gateway answers the next POST with 502 AFTER the server has stored it
 	st      eb.EventStore
 	sub     eb.SubscriptionStore
 	padded  bool
@@ -169,13 +173,21 @@ func (sc *storeCase) newInst() (*storeInst, error) {
 		h := dss.NewHandler(storage, cfg)
 		mux := http.NewServeMux()
 		mux.Handle("/v1/stream/", http.StripPrefix("/v1/stream/", h))
-		srv := httptest.NewServer(mux)
+		flaky := &atomic.Bool{}
+		srv := httptest.NewServer(http.HandlerFunc(func(w http.ResponseWriter, r *http.Request) {
+			if r.Method == http.MethodPost && flaky.CompareAndSwap(true, false) {
+				mux.ServeHTTP(httptest.NewRecorder(), r) // the server stores the event …
+				http.Error(w, "bad gateway", http.StatusBadGateway) // … but the answer is lost on the way back
+				return
+			}
+			mux.ServeHTTP(w, r)
+		}))
 		s, err := ebds.New(srv.URL+"/v1/stream", "s")
 		if err != nil {
 			srv.Close()
 			return nil, err
 		}
-		return &storeInst{st: s, padded: true, closers: []func(){srv.Close}}, nil
+		return &storeInst{st: s, padded: true, closers: []func(){srv.Close}, flaky: flaky}, nil
 	}
 	return nil, errors.New("unknown kind")
 }
@@ -324,13 +336,24 @@ func storeDomain(lines []string) []string {
 				sc.cur.appOffs = append(sc.cur.appOffs, string(off))
 				out = append(out, "append "+string(off))
 			}
-		case "pub", "replaypub":
+		case "drop":
+			// close an instance and forget it; a later `use` of that number creates a new store
+			n := atoi(f[1])
+			if in, ok := sc.insts[n]; ok && in != sc.cur {
+				for _, c := range in.closers {
+					c()
+				}
+				delete(sc.insts, n)
+			}
+			out = append(out, "drop")
+		case "pub", "replaypub", "pubflaky":
 			// publish through a bus built on the store (options in either order, persistence timeout set):
 			// the handler looks the log up while it runs
 			in := sc.cur
 			rec := atoi(f[1])
 			if in.bus == nil {
-				opts := []eb.Option{eb.WithStore(in.st), eb.WithPersistenceTimeout(2 * time.Second)}
+				opts := []eb.Option{eb.WithStore(in.st), eb.WithPersistenceTimeout(2 * time.Second),
+					eb.WithPersistenceErrorHandler(func(any, reflect.Type, error) { in.perrs++ })}
 				if rec%2 == 1 {
 					opts[0], opts[1] = opts[1], opts[0]
 				}
@@ -358,6 +381,19 @@ func storeDomain(lines []string) []string {
 				} else {
 					out = append(out, "replaypub "+in.pubSeen)
 				}
+				break
+			}
+			if f[0] == "pubflaky" {
+				// the store accepts the event but the acknowledgement is lost: one failure report, no second attempt
+				if in.flaky == nil {
+					out = append(out, "pubflaky unsupported")
+					break
+				}
+				before := in.perrs
+				in.flaky.Store(true)
+				eb.Publish(in.bus, mkPub(rec))
+				in.flaky.Store(false)
+				out = append(out, fmt.Sprintf("pubflaky %s perr=%d", in.pubSeen, in.perrs-before))
 				break
 			}
 			eb.Publish(in.bus, mkPub(rec))
@@ -413,6 +449,35 @@ func storeDomain(lines []string) []string {
 			} else {
 				out = append(out, "load "+string(off))
 			}
+		case "busreplay":
+			// Replay on the instance's own publishing bus (whose idea of "the last offset" is its own last append)
+			from, ok := sc.resolveOff(f[1])
+			if !ok || sc.cur.bus == nil {
+				out = append(out, "busreplay skip")
+				continue
+			}
+			var got []*eb.StoredEvent
+			err := sc.cur.bus.Replay(ctx, from, func(e *eb.StoredEvent) error { got = append(got, e); return nil })
+			rs, _ := showEvs(got, sc.cur.padded)
+			out = append(out, fmt.Sprintf("busreplay end=%s recs=%s", map[bool]string{true: "nil", false: "err"}[err == nil], rs))
+		case "nestedreplay":
+			// a second replay of the same store started from the callback of the first one
+			bus := eb.New(eb.WithStore(sc.cur.st))
+			var outer, inner []*eb.StoredEvent
+			nested := false
+			err := bus.Replay(ctx, eb.OffsetOldest, func(e *eb.StoredEvent) error {
+				outer = append(outer, e)
+				if !nested {
+					nested = true
+					if ierr := bus.Replay(ctx, eb.OffsetOldest, func(e2 *eb.StoredEvent) error { inner = append(inner, e2); return nil }); ierr != nil {
+						return ierr
+					}
+				}
+				return nil
+			})
+			ro, _ := showEvs(outer, sc.cur.padded)
+			ri, _ := showEvs(inner, sc.cur.padded)
+			out = append(out, fmt.Sprintf("nestedreplay end=%s outer=%s inner=%s", map[bool]string{true: "nil", false: "err"}[err == nil], ro, ri))
 		case "replay":
 			// replay <from> <batchsize> <paged> <cbfail|-> <cancel|-> <readfail|->
 			from, ok := sc.resolveOff(f[1])
